@@ -236,3 +236,29 @@ func init() {
 		}
 	})
 }
+
+// C01R: re-run the spec of a C01 replay file (env C01_REPLAY) and print the recorded jobs.
+func init() {
+	register("C01R", func(c *Ctx) {
+		b, err := os.ReadFile(os.Getenv("C01_REPLAY"))
+		if err != nil {
+			fatal("%v", err)
+		}
+		var d struct {
+			Violation struct {
+				Input struct {
+					Spec TASpec `json:"spec"`
+				} `json:"input"`
+			} `json:"violation"`
+		}
+		if err := json.Unmarshal(b, &d); err != nil {
+			fatal("%v", err)
+		}
+		res := c01RunSpec(&d.Violation.Input.Spec, c.Scratch)
+		for _, j := range res.Jobs {
+			fmt.Fprintln(os.Stderr, j.Fqname, j.Shell, j.Outcome, len(j.Outs))
+		}
+		obs, an := c01Obs(res)
+		fmt.Fprintln(os.Stderr, "final:", res.Final, "anomalies:", an, "obs bytes:", len(obs))
+	})
+}
